@@ -260,19 +260,21 @@ Proof.
       assert (OW4 : ownp H (mkrjob (r_base j) cur (Some id) :: all_jobs st) st) by (apply (ownp_job_upd H j); auto).
       eapply ownp_view; [| |exact OW4]; [constructor; unfold estage; xs; auto|].
       intro x. unfold all_jobs. xs. simpl. tauto.
-  - inversion Hst; subst st'. clear Hst. unfold add_run. xs. rewrite OQ3, NX3. split; [|auto].
+  - inversion Hst; subst st'. clear Hst.
     set (e := mkejob (r_base j) rv (d_off cur)).
     set (f := fun u => u_set_complete (u_set_end cur u)).
-    set (st' := set_running (CRetr2 e :: x_running (set_unords (upd_unord id f (x_unords st)) st)) (set_unords (upd_unord id f (x_unords st)) st)).
-    assert (AJ : all_jobs st' = all_jobs st) by (subst st'; unfold all_jobs; xs; reflexivity).
+    match goal with |- ownp _ (all_jobs ?s) ?s /\ _ => set (st' := s) end.
+    assert (EQ' : x_order_q st' = x_order_q st /\ x_next st' = x_next st) by (subst st'; unfold add_run; xs; auto).
+    destruct EQ' as (-> & ->). rewrite OQ3, NX3. split; [|auto].
+    assert (AJ : all_jobs st' = all_jobs st) by (subst st'; unfold all_jobs, add_run; xs; reflexivity).
     assert (LAm : forall b k, la st b k -> la st' b k).
     { intros b k L. unfold la in *. eapply lineabove_mono; [| |exact L].
-      - intros x Hx. subst st'. unfold estage in *. xs. rewrite run_ejobs_cons. simpl. rewrite in_app_iff in *. simpl. tauto.
-      - intros o Ho. subst st'. xs. exact Ho. }
+      - intros x Hx. subst st'. unfold estage, add_run in *. xs. rewrite run_ejobs_cons. simpl. rewrite in_app_iff in *. simpl. tauto.
+      - intros o Ho. subst st'. unfold add_run. xs. exact Ho. }
     assert (LAe : la st' (fst (r_base j)) 0).
-    { left. exists e. split; [subst st'; unfold estage; xs; rewrite run_ejobs_cons; simpl; apply in_or_app; right; left; reflexivity|].
+    { left. exists e. split; [subst st'; unfold estage, add_run; xs; rewrite run_ejobs_cons; simpl; apply in_or_app; right; left; reflexivity|].
       simpl. split; auto. apply N.le_0_l. }
-    assert (USN : x_unords st' = upd_unord id f (x_unords st)) by (subst st'; xs; reflexivity).
+    assert (USN : x_unords st' = upd_unord id f (x_unords st)) by (subst st'; unfold add_run; xs; reflexivity).
     assert (UP : forall u, In u (x_unords st') -> exists u0, In u0 (x_unords st) /\
                ((u_id u0 <> id /\ u = u0) \/ (u_id u0 = id /\ u = f u0))).
     { intros u Hu. rewrite USN in Hu. unfold upd_unord in Hu. apply in_map_iff in Hu. destruct Hu as (u0 & <- & H0). exists u0. split; auto.
@@ -287,14 +289,14 @@ Proof.
       eapply jm_upd_raise; [| |exact J]; [intro u; split; reflexivity|apply I3].
     + intros u Hu Cu. destruct (UP u Hu) as (u0 & H0 & [[NE ->]|[EQ ->]]); [|simpl in Cu; discriminate].
       destruct (D u0 H0 Cu) as (x & [<-|X1] & X2); [congruence|exists x; auto].
-    + intros u Hu Qu Cu. replace (x_parser_bs st') with (x_parser_bs st) by (subst st'; xs; auto).
+    + intros u Hu Qu Cu. replace (x_parser_bs st') with (x_parser_bs st) by (subst st'; unfold add_run; xs; auto).
       destruct (UP u Hu) as (u0 & H0 & [[NE ->]|[EQ ->]]).
       * destruct (E u0 H0 Qu Cu) as [L|L]; [left; auto|right; auto].
       * left. simpl. destruct (US u0 H0) as (u1 & H1 & E1 & E2 & _). rewrite E2, (UB u1 H1 ltac:(congruence)). exact LAe.
-    + replace (x_parsing_done st') with (x_parsing_done st) by (subst st'; xs; auto). rewrite PD3. discriminate.
-    + replace (x_parsing_done st') with (x_parsing_done st) by (subst st'; xs; auto).
-      replace (x_next st') with (x_next st) by (subst st'; xs; auto).
-      replace (x_parser_bs st') with (x_parser_bs st) by (subst st'; xs; auto). exact G.
-    + replace (x_parsing_done st') with (x_parsing_done st) by (subst st'; xs; auto).
-      replace (x_parser_bs st') with (x_parser_bs st) by (subst st'; xs; auto). exact K.
+    + replace (x_parsing_done st') with (x_parsing_done st) by (subst st'; unfold add_run; xs; auto). rewrite PD3. discriminate.
+    + replace (x_parsing_done st') with (x_parsing_done st) by (subst st'; unfold add_run; xs; auto).
+      replace (x_next st') with (x_next st) by (subst st'; unfold add_run; xs; auto).
+      replace (x_parser_bs st') with (x_parser_bs st) by (subst st'; unfold add_run; xs; auto). exact G.
+    + replace (x_parsing_done st') with (x_parsing_done st) by (subst st'; unfold add_run; xs; auto).
+      replace (x_parser_bs st') with (x_parser_bs st) by (subst st'; unfold add_run; xs; auto). exact K.
 Qed.
